@@ -94,3 +94,31 @@ def builtins_stubbed(names=BUILTIN_STUB_NAMES):
         for m in mods:
             st.enter_context(patched(m, 'builtins', stub))
         yield stub
+
+
+# --- deterministic hashing of AST nodes ------------------------------------------------------------------------
+# python_minifier keeps AST nodes in sets ({namespace} in reservation_scope).  Their default hash is the memory address,
+# so the iteration order - and with it the order in which CrossHair meets symbolic decisions - differs from path to
+# path ("NotDeterministic").  Node identity semantics are unchanged (__eq__ stays identity); only the hash becomes the
+# node's creation index.
+_hash_counter = [0]
+
+
+def _node_hash(self):
+    h = self.__dict__.get('_vh')
+    if h is None:
+        _hash_counter[0] += 1
+        h = _hash_counter[0]
+        self.__dict__['_vh'] = h
+    return h
+
+
+def deterministic_node_hash(tree=None):
+    """Installs the deterministic hash and (re)numbers the nodes of `tree` in traversal order."""
+    if ast.AST.__hash__ is not _node_hash:
+        ast.AST.__hash__ = _node_hash
+    _hash_counter[0] = 0
+    if tree is not None:
+        for node in ast.walk(tree):
+            _hash_counter[0] += 1
+            node.__dict__['_vh'] = _hash_counter[0]
